@@ -4,8 +4,8 @@ Level "other". Proved in Coq (Properties/C10.v over Model/DefaultBuilder.v, unbo
 generated Vec actions (push for the left-recursive alternative, insert(0, ..) for the right-recursive one,
 production.rs:344-419) return the elements of EVERY derivation of a vector rule in input order. The model is
 tied to the real generated actions every run (build_vec of the derivation = the literal sequence of the real
-value). Also proved (Model/DefaultAst.v, not run against the code): `ast_tokens_compositional` and
-`std_actions_keep_order_partial` — every action-body shape the generator writes keeps its arguments' literals in
+value). Also proved (Model/DefaultAst.v, not run against the code): `ast_tokens_in_order_partial`, `ast_tokens_compositional`
+and `std_actions_keep_order_partial` — every action-body shape the generator writes keeps its arguments' literals in
 order, hence so does the value of any derivation tree. The type deduction is not modelled; the property as a whole (all type shapes, Option/None, GLR replay,
 loc_info) is an exploration of the real generated code against the real generic parse tree:
 
@@ -399,7 +399,8 @@ def run(rep, tier, seed):
     rep.coverage = dict(
         explanation="proved in Coq: vec_in_order (the generated Vec actions return the elements of every derivation "
                     "of a vector rule in input order, both recursion directions), tied to the real values each run; "
-                    "ast_tokens_compositional (Model/DefaultAst.v: if every production action keeps the literals of "
+                    "ast_tokens_in_order_partial (for every kind assignment and every well_kinded tree the built value holds "
+                    "exactly the content tokens in input order), from ast_tokens_compositional (Model/DefaultAst.v: if every production action keeps the literals of "
                     "its arguments in order, the value of ANY derivation tree holds exactly the content tokens in "
                     "input order) and std_actions_keep_order_partial (every action body shape the generator writes "
                     "— struct, enum variant, (boxed) reference, Some/None, vec![], push, insert(0,..) — meets that "
